@@ -245,6 +245,15 @@ def d4(cx: Cx, ob: Ob) -> None:
             cls_ = t[1][1].rsplit(".", 1)[-1] if op(t) == "call" and op(t[1]) in ("cls", "builtin", "ext") else show(t)[:30]
             if op(t) == "reraise":
                 continue
+            tfn = cx.model.functions.get(f"{CONV}.{target}")
+            target_raises = set()
+            if tfn is not None:
+                for rt, _ in cx.summary(tfn, ob.id).raises():
+                    if op(rt) == "call" and op(rt[1]) in ("cls", "builtin", "ext"):
+                        target_raises.add(rt[1][1].rsplit(".", 1)[-1])
+            if cls_ in target_raises or cls_ == {"compress": "CompressionError", "expand": "ExpansionError"}[target]:
+                ob.site(f"{where(fn, ctx.path.out[2])} {fn.qualname}", f"raises {cls_}, the class self.{target}(strict=True) raises")
+                continue
             caught = [g.a for g in ctx.path.events if g.kind == "except"]
             if caught and isinstance(caught[-1], tuple) and any(isinstance(c_, str) and (cls_ == c_ or cx.model.is_subclass(cls_, c_)) for c_ in caught[-1]):
                 # the same class the strict call raised, with another message
